@@ -78,6 +78,9 @@ type (
 	}
 	pcapOverIPEndpoint struct {
 		PcapOverIPEndpointInfo
+		// mu guards the embedded info, the goroutine of the endpoint updates
+		// it while the service loop reads it. Address never changes.
+		mu     sync.Mutex
 		cancel func()
 	}
 	pcapOverIPPacket struct {
@@ -2295,7 +2298,9 @@ func (mgr *Manager) newPcapOverIPEndpoint(ctx context.Context, address string) *
 				sl := handle.SnapLen()
 				log.Printf("Connection to PCAP-over-IP endpoint %q established (using linkType %s and snaplen %d)\n", endpoint.Address, lt.String(), sl)
 
+				endpoint.mu.Lock()
 				endpoint.LastConnected = time.Now().UnixNano()
+				endpoint.mu.Unlock()
 				for {
 					data, ci, err := handle.ReadPacketData()
 					if err != nil {
@@ -2303,12 +2308,16 @@ func (mgr *Manager) newPcapOverIPEndpoint(ctx context.Context, address string) *
 						return
 					}
 					mgr.pcapOverIPPackets <- pcapOverIPPacket{lt, data, ci}
+					endpoint.mu.Lock()
 					endpoint.ReceivedPackets++
+					endpoint.mu.Unlock()
 				}
 			}()
+			endpoint.mu.Lock()
 			if endpoint.LastDisconnected <= endpoint.LastConnected {
 				endpoint.LastDisconnected = time.Now().UnixNano()
 			}
+			endpoint.mu.Unlock()
 			select {
 			case <-ctx.Done():
 				return
@@ -2319,12 +2328,19 @@ func (mgr *Manager) newPcapOverIPEndpoint(ctx context.Context, address string) *
 	return endpoint
 }
 
+// info returns a copy of the current state of the endpoint.
+func (e *pcapOverIPEndpoint) info() PcapOverIPEndpointInfo {
+	e.mu.Lock()
+	defer e.mu.Unlock()
+	return e.PcapOverIPEndpointInfo
+}
+
 func (mgr *Manager) ListPcapOverIPEndpoints() []PcapOverIPEndpointInfo {
 	c := make(chan []PcapOverIPEndpointInfo)
 	mgr.jobs <- func() {
 		endpoints := make([]PcapOverIPEndpointInfo, 0, len(mgr.pcapOverIPEndpoints))
 		for _, e := range mgr.pcapOverIPEndpoints {
-			endpoints = append(endpoints, e.PcapOverIPEndpointInfo)
+			endpoints = append(endpoints, e.info())
 		}
 		c <- endpoints
 		close(c)
@@ -2347,7 +2363,7 @@ func (mgr *Manager) AddPcapOverIPEndpoint(address string) error {
 			mgr.pcapOverIPEndpoints = append(mgr.pcapOverIPEndpoints, mgr.newPcapOverIPEndpoint(context.Background(), address))
 			endpoints := make([]PcapOverIPEndpointInfo, 0, len(mgr.pcapOverIPEndpoints))
 			for _, e := range mgr.pcapOverIPEndpoints {
-				endpoints = append(endpoints, e.PcapOverIPEndpointInfo)
+				endpoints = append(endpoints, e.info())
 			}
 			mgr.event(Event{
 				Type:                "pcapOverIPEndpointsUpdated",
@@ -2375,7 +2391,7 @@ func (mgr *Manager) DelPcapOverIPEndpoint(address string) error {
 			mgr.pcapOverIPEndpoints = slices.Delete(mgr.pcapOverIPEndpoints, toDelete, toDelete+1)
 			endpoints := make([]PcapOverIPEndpointInfo, 0, len(mgr.pcapOverIPEndpoints))
 			for _, e := range mgr.pcapOverIPEndpoints {
-				endpoints = append(endpoints, e.PcapOverIPEndpointInfo)
+				endpoints = append(endpoints, e.info())
 			}
 			mgr.event(Event{
 				Type:                "pcapOverIPEndpointsUpdated",
